@@ -98,7 +98,7 @@ func (c13Stream) Rule() string {
 func (c13Stream) Generate(rng *rand.Rand, n int, thorough bool) []Case {
 	var cs []Case
 	for len(cs) < n {
-		before, after, idle := []int{0, 1, 10, 40}[rng.Intn(4)], []int{0, 1, 10, 40}[rng.Intn(4)], 0
+		before, after, idle, linger := []int{0, 1, 10, 40}[rng.Intn(4)], []int{0, 1, 10, 40}[rng.Intn(4)], 0, 0
 		switch rng.Intn(12) {
 		case 0:
 			before = 1300 // a handler that takes its time before answering
@@ -106,6 +106,8 @@ func (c13Stream) Generate(rng *rand.Rand, n int, thorough bool) []Case {
 			after = 1300 // ... or between its answer and the handshake
 		case 2:
 			idle = 6000 // a session that stays quiet for a while after the upgrade
+		case 3:
+			linger = 1500 // a handler that goes on working after Request.StartTLS has returned
 		}
 		barrier, stop, overlap := 0, 0, 0
 		switch rng.Intn(10) {
@@ -116,8 +118,8 @@ func (c13Stream) Generate(rng *rand.Rand, n int, thorough bool) []Case {
 		case 3:
 			overlap = 1 // (race detector only) a slow request is still in flight when StartTLS is served
 		}
-		cs = append(cs, Case{Line: fmt.Sprintf("c13 sessions=%d pre=%d before=%d after=%d post=%d pipelined=%d idle=%d barrier=%d stop=%d overlap=%d", []int{1, 2, 4, 8}[rng.Intn(4)],
-			[]int{0, 0, 1, 3}[rng.Intn(4)], before, after, 1+rng.Intn(6), rng.Intn(2), idle, barrier, stop, overlap), Kind: "starttls"})
+		cs = append(cs, Case{Line: fmt.Sprintf("c13 sessions=%d pre=%d before=%d after=%d post=%d pipelined=%d idle=%d barrier=%d stop=%d overlap=%d linger=%d", []int{1, 2, 4, 8}[rng.Intn(4)],
+			[]int{0, 0, 1, 3}[rng.Intn(4)], before, after, 1+rng.Intn(6), rng.Intn(2), idle, barrier, stop, overlap, linger), Kind: "starttls"})
 	}
 	return cs
 }
@@ -137,6 +139,15 @@ func (c13Stream) Impl(c Case) string {
 	var barrier sync.WaitGroup
 	barrier.Add(k)
 	stls := startTLSHandler(srvTLS, time.Duration(atoi(p["before"]))*time.Millisecond, time.Duration(atoi(p["after"]))*time.Millisecond)
+	if lg := atoi(p["linger"]); lg > 0 && p["stop"] != "1" {
+		// when Request.StartTLS returns the upgrade is complete: a client with a 1 s handshake budget is not kept
+		// waiting by a handler that then goes on working for 1.5 s
+		inner := stls
+		stls = func(w *gldap.ResponseWriter, r *gldap.Request) {
+			inner(w, r)
+			time.Sleep(time.Duration(lg) * time.Millisecond)
+		}
+	}
 	if p["stop"] == "1" {
 		// the handler lingers for a while after the upgrade: Stop arrives while the read loop is not parked in a read,
 		// so the loop head sees the cancellation and sends the notice of disconnection - inside the tunnel
@@ -190,13 +201,15 @@ func (c13Stream) Impl(c Case) string {
 					return
 				}
 			}
-			_ = cl.send(opFrame("starttls", 1))
+			// the StartTLS request carries the message id the first request inside the tunnel will use again (an id
+			// is free for reuse once its response has arrived)
+			_ = cl.send(opFrame("starttls", 100))
 			f, err := cl.readFrame(10 * time.Second)
 			if err != nil {
 				fail("no StartTLS response: %v", err)
 				return
 			}
-			if v := strictView(f); !strings.HasPrefix(v, "result id=1 tag=24 code=0") {
+			if v := strictView(f); !strings.HasPrefix(v, "result id=100 tag=24 code=0") {
 				fail("StartTLS refused: %s", v)
 				return
 			}
@@ -221,7 +234,11 @@ func (c13Stream) Impl(c Case) string {
 			cfg := cliTLS.Clone()
 			cfg.ServerName = "localhost"
 			tc := tls.Client(raw, cfg)
-			_ = tc.SetDeadline(time.Now().Add(10 * time.Second))
+			hsBudget := 10 * time.Second
+			if atoi(p["linger"]) > 0 {
+				hsBudget = time.Second
+			}
+			_ = tc.SetDeadline(time.Now().Add(hsBudget))
 			if err := tc.Handshake(); err != nil {
 				fail("TLS handshake after StartTLS failed: %v", err)
 				return
